@@ -543,11 +543,15 @@ func getSnapshotCount(ctx storage.Context) int {
 // `Snapshot` method can return invalid results for `diff = new-old` epochs
 // until `diff` epochs have passed.
 //
-// Count MUST be positive.
+// Count MUST be positive and less than 255.
 func UpdateSnapshotCount(count int) {
 	common.CheckAlphabetWitness()
 	if count <= 0 {
 		panic("count must be positive")
+	}
+	if count >= 255 {
+		// snapshot keys are indexed by a single byte, see DefaultSnapshotCount
+		panic("count must be less than 255")
 	}
 	ctx := storage.GetContext()
 	oldCount := getSnapshotCount(ctx)
